@@ -22,13 +22,15 @@ func checkC11(c *Ctx) {
 		"(R11.3) the scan is skipped only when TimeToLive==UnlimitedTTL and no expiration was ever set, and Trait.TTL counts every non-zero " +
 		"TTL handed out under UnlimitedTTL; (R11.4) the Trait that owns that counter and the janitor goroutine is never copied by value " +
 		"(a copy would split the counter from the goroutine); (R11.5) entries are removed from storage only by Delete, DeleteAll, " +
-		"deleteExpired and the evict functions (eviction is gated by C12)."
+		"deleteExpired and the evict functions; (R11.6) the evict callback runs only on cleanup paths that establish a soft-limit breach " +
+		"(limit ≠ 0 ∧ measured > limit) or EvictionNeeded()==true — \"as long as no eviction limit is exceeded\" fresh entries are left alone."
 	r.Rule("R11.1", "cleanup boundary = now − DeleteExpiredAfter (default 24h exactly when 0)", 2)
 	r.Rule("R11.2", "delete ⇔ E≠0 ∧ E<boundary, on the iterated entry, test and delete in one critical section (3 backends)", 3)
 	r.Rule("R11.3", "scan skipped only for UnlimitedTTL with expirationsSet==0; Trait.TTL increments expirationsSet for every non-zero TTL under UnlimitedTTL", 2)
 	r.Rule("R11.4", "Trait is never copied by value after construction", 1)
 	r.Rule("R11.5", "who may delete from storage", 1)
-	r.NotDecided = []string{"when the janitor runs", "interplay with eviction (C12)"}
+	r.Rule("R11.6", "eviction, the only other remover, is gated by an established soft-limit breach (same obligations as C12 R12.1)", 4)
+	r.NotDecided = []string{"when the janitor runs", "how much and which entries an eviction removes (C12)"}
 	c.c11Boundary()
 	c.defaultsRule("R11.1", map[string]*big.Rat{"DeleteExpiredAfter": big.NewRat(24*3600*1000000000, 1)})
 	for _, b := range backends {
@@ -37,6 +39,7 @@ func checkC11(c *Ctx) {
 	c.c11ScanSkip()
 	c.c11NoCopy()
 	c.c11WhoDeletes()
+	c.borrow("C12", func() { c.c12Cleanup() }, func(o *coreObl) (string, bool) { return "R11.6", o.Rule == "R12.1" })
 }
 
 func cleanupPolicy() pw.Policy {
